@@ -570,11 +570,21 @@ func (c *Client) monitor(ctx context.Context) {
 							subsToRepublish = nil
 							subsToRecreate = subIDs
 
+						case len(res.Results) != len(subIDs):
+							// the results do not belong to the subscriptions we asked for
+							dlog.Printf("transfer subscriptions returned %d results for %d subscriptions. Recreating all subscriptions", len(res.Results), len(subIDs))
+							subsToRepublish = nil
+							subsToRecreate = subIDs
+
 						default:
 							// otherwise, try a republish for the subscriptions that were transferred
 							// and recreate the rest.
 							for i := range res.Results {
 								transferResult := res.Results[i]
+								if transferResult == nil {
+									subsToRecreate = append(subsToRecreate, subIDs[i])
+									continue
+								}
 								switch transferResult.StatusCode {
 								case ua.StatusBadSubscriptionIDInvalid:
 									dlog.Printf("sub %d: transfer subscription failed", subIDs[i])
